@@ -152,6 +152,16 @@ def gen_case(rng):
                         l2 = list(l)
                     axes2[q] = (l2, k)
                 other = gen_ds(rng, dims=dsp["dims"], axes=axes2, keys=[(k, v["dims"]) for k, v in dsp["vars"].items()])
+            if rng.random() < 0.3 and len(other["vars"]) > 1:
+                # differing variable sets: the result holds the variables both datasets have
+                del other["vars"][rng.choice(list(other["vars"]))]
+            if rng.random() < 0.3 and other["dims"]:
+                # ... also when a variable that only ds has is named like a dimension (ds2[name] then yields that axis' labels)
+                dn = rng.choice([q for q in other["dims"]])
+                if dn not in dsp["vars"]:
+                    extra = gen_ds(rng, dims=dsp["dims"], axes=dsp["axes"], keys=[(dn, [q for q in dsp["dims"] if rng.random() < 0.6])])
+                    dsp["vars"][dn] = extra["vars"][dn]
+                    c["dim_named_variable"] = dn
             c["other"] = other
             c["same_labels"] = same
         else:
@@ -299,7 +309,9 @@ def check(case, ctx):
                                                           codec.short({q: l for q, (l, k) in case["other"]["axes"].items()}, 100))
         fn = lambda: op(ds, other)
         expected = None
-        exp = {k: op(free[k], free2[k]) for k in free}
+        exp = {k: op(free[k], free2[k]) for k in free if k in free2}
+        if set(free) != set(free2):
+            ctx.outcomes['arith-differing-variable-sets'] += 1
     elif what == 'arith_scalar':
         op = PYOP[case["op"]]
         s = case["scalar"]
